@@ -387,3 +387,11 @@ package keeper
 //@   ensures window: forall j:Int :: 0 <= j && j < len(ASSETS) ==> windowOK(ASSETS[j], dt)
 //@   nopanic
 //@ end
+
+// iteration over the asset supplies (helper with callback; inlined into InitGenesis): reads only
+//@ func Keeper.IterateAssetSupplies
+//@   inline
+//@   invariant #1 pos:   0 <= it_idx && it_idx <= it_n
+//@   invariant #1 frame: forall j:Int :: 0 <= j && j < len(data.Htlcs) ==> has(htlcs, unhex(data.Htlcs[j].Id)) && get(htlcs, unhex(data.Htlcs[j].Id)) == data.Htlcs[j]
+//@                          && has(queue, data.Htlcs[j].ExpirationHeight, unhex(data.Htlcs[j].Id))
+//@ end
